@@ -246,7 +246,8 @@ theorem groupCount_err (c : WCtx) (cnt : Count) (items : List Item) (st : WState
       · exact h1
       · rw [hz rfl] at h2; cases h2
     · cases h
-  · split at h
+  · unfold namedCount at h
+    split at h
     · cases h; rfl
     · simp only at h
       split at h
